@@ -336,7 +336,7 @@ class Check(object):
                     out.write('Definition c%d := %s.\n' % (cidx, term))
                     out.write('Eval vm_compute in (%s c%d).\n' % (func, cidx))
             paths.append(path)
-        cmd = 'ls %s | xargs -P16 -I{} sh -c \'timeout %d coqc -Q %s DTN {} > {}.out 2>&1; echo $? > {}.rc\'' % (
+        cmd = 'ulimit -s unlimited 2>/dev/null || ulimit -s 1000000 2>/dev/null; ls %s | xargs -P16 -I{} sh -c \'timeout %d coqc -Q %s DTN {} > {}.out 2>&1; echo $? > {}.rc\'' % (
             ' '.join(paths), timeout, COQ)
         self.checker_cmds.append('coqc -Q coq DTN build/cases/cases_%s_%s_*.v  (%d shard(s), %d case(s), Eval vm_compute)' % (
             self.prop_id, name, len(paths), len(cases)))
@@ -348,7 +348,11 @@ class Check(object):
             with open(path + '.out') as infile:
                 out = infile.read()
             if ret != 0:
-                raise CoqError('model evaluation failed for %s: %s' % (os.path.basename(path), self._first_error(out)))
+                with open(os.path.join(BUILD, 'last_eval_error.txt'), 'w') as errfile:
+                    errfile.write('rc=%d\n%s' % (ret, out))
+                errs = [blk for blk in re.split(r'\n(?=File )', out) if 'Error' in blk]
+                raise CoqError('model evaluation failed for %s (rc %d): %s' % (
+                    os.path.basename(path), ret, (errs[0] if errs else out[-800:])[:900]))
             parts = re.split(r'^\s*= ', out, flags=re.M)[1:]
             if len(parts) != len(shard):
                 raise CoqError('expected %d results, got %d in %s' % (len(shard), len(parts), path))
